@@ -461,121 +461,119 @@ def impl_header_rule(syn, prop, rule="C16.R7"):
     return r
 
 
+def _generic_emitters_mir(crate, prop, r, droppers, replacers):
+    """the emitters of the item's type parameters, decided on the MIR of each emitter together with its closures and the
+    helpers it shares with nobody but other emitters"""
+    from vlib import mirlib as M2
+    from vlib import quotelib as Q
+    anchors = set(droppers) | set(replacers)
+    cg = crate.callgraph(("TS",))
+    by_path = {b.path: b for b in crate.bodies}
+    unclosure = lambda q: re.sub(r"::\{closure#\d+\}", "", q)
+    for name in droppers + replacers:
+        cands = [b for b in crate.bodies if b.kind in ("Fn", "AssocFn") and b.path.split("::")[-1] == name]
+        if len(cands) != 1:
+            r.fail(prop, "anchor-missing " + name, "emitter not found (or not unique)")
+            continue
+        root = cands[0]
+        seen_p, todo = set(), [root.path]
+        while todo:
+            pth = todo.pop()
+            if pth in seen_p or len(seen_p) > 40:
+                continue
+            seen_p.add(pth)
+            for q in cg.get(pth, ()):
+                base = unclosure(q)
+                if q.startswith("<") or q not in by_path:
+                    continue
+                if base.split("::")[-1] in anchors and base != unclosure(root.path):
+                    continue                   # a sibling emitter is judged on its own
+                todo.append(q)
+        reach = [by_path[p] for p in sorted(seen_p)]
+        calls = [(b, blk, t) for b in reach for blk, t in b.calls() if not b.is_cleanup(blk)]
+        walks = [M2.callee(t).split("::")[-1] for b, blk, t in calls if M2.fn_matches(t, r"Generics::type_params$") or
+                 (M2.fn_matches(t, r"Punctuated::<T, P>::iter$", r"IntoIterator>::into_iter$", r"IntoIterator::into_iter$") and "GenericParam" in (t.get("arg_tys") or [""])[0])]
+        by_kind = [M2.callee(t).split("::")[-1] for b, blk, t in calls if M2.fn_matches(t, r"Generics::(lifetimes|type_params|const_params)$")]
+        reorder = [M2.callee(t).split("::")[-1] for b, blk, t in calls if M2.fn_matches(t, r"Iterator::(chain|partition|rev)$", r"::sort(_by|_by_key|_unstable\w*)?$")]
+        looks = [(b, blk, t) for b, blk, t in calls if M2.fn_matches(t, r"HashMap::<K, V, S(, A)?>::(contains_key|get)$") and "Ident" in (t.get("arg_tys") or [""])[0]]
+        hashed = any(re.search(r"(Hash|BTree)(Map|Set)<[^>]*(TypeParam|GenericParam)", l["ty"]) for b in reach for l in b.locals)
+        is_drop = name in droppers
+        if not walks:
+            r.inst(fn=root.path, examined=sorted(seen_p), verdict="undecided: no walk over the parameter list found")
+            r.fail(prop, "anchor-missing parameter walk of " + name, "no iteration over Generics::type_params()/generics.params found in %s or its helpers" % root.path, root.file(), root.line())
+            continue
+        ok, treat = True, "drops concrete params" if is_drop else "replaces concrete params"
+        if hashed:
+            ok, treat = False, "collects the parameters into a hash/tree container: the declaration order is lost"
+        elif not looks:
+            ok, treat = False, "NO concrete " + ("filter" if is_drop else "replacement") + ": the `concrete` map is never consulted"
+        elif is_drop:
+            for bx, blk, t in looks:
+                if bx.kind != "Closure" or not M2.fn_matches(t, r"contains_key$"):
+                    continue
+                # a closure that decides about one parameter: every way out that keeps the parameter passes the test
+                cks = [b2 for b2, t2 in bx.calls() if not bx.is_cleanup(b2) and M2.fn_matches(t2, r"HashMap::<K, V, S(, A)?>::contains_key$")]
+                drops = {b2 for b2 in range(bx.n) if not bx.is_cleanup(b2) for st in bx.stmts(b2)
+                         if st["k"] == "assign" and st["dst"]["l"] == 0 and ((st["rv"]["k"] == "agg" and st["rv"].get("variant") == "None") or
+                                                                             (st["rv"]["k"] == "use" and (M2.op_const(st["rv"]["op"]) or {}).get("int") == 0))}
+                if not bx.all_paths_pass(0, set(cks) | drops, bx.returns()):
+                    ok, treat = False, "the `concrete` test in %s does not cover every arm that keeps a parameter" % bx.path
+        else:
+            # what stands in for a type parameter: the mapped type when `concrete` has one; the stand-in otherwise
+            for bx, blk, t in looks:
+                if not M2.fn_matches(t, r"::get$"):
+                    continue
+                tpls = Q.templates(bx)
+                kinds = []
+                for tpl in tpls:
+                    toks = [x for x in tpl.tokens if x != "#"]
+                    from_map = any(any(c2 is t for _, c2 in M2.deep_slice(bx, l)[0]) for _, l, _ in tpl.interps)
+                    after = t.get("target") if t.get("target") is not None else blk
+                    if "Dummy" in toks:
+                        kinds.append(("stand-in", tpl))
+                    elif from_map:
+                        kinds.append(("mapped", tpl))
+                    elif any(re.search(r"Ident$", ty) for _, _, ty in tpl.interps) and (after == tpl.block or bx.dominates(after, tpl.block)):
+                        kinds.append(("parameter kept", tpl))
+                r.inst(fn=bx.path, lookup="concrete.get", outcomes=sorted({k for k, _ in kinds}))
+                if name in ("generate_assoc_type", "generate_export_test"):
+                    kept = [tpl for k, tpl in kinds if k == "parameter kept"]
+                    if kept and any(k == "stand-in" for k, _ in kinds):
+                        r.fail(prop, "generic-erasure-conditional %s" % name,
+                               "%s does not replace every non-concrete type parameter by Dummy (a template after the lookup keeps the parameter's own identifier): `WithoutGenerics` then keeps an argument, and the imports of the type's file depend on which instantiation is exported first" % bx.path,
+                               kept[0].file, kept[0].line)
+                returned = any(c2 is t for _, c2 in M2.deep_slice(bx, 0)[0])        # `concrete.get(..)` flows into what the function returns
+                if tpls and not returned and not any(k == "mapped" for k, _ in kinds):
+                    ok, treat = False, "the type found in `concrete` is never emitted"
+        if name == "generate_assoc_type":
+            in_order = not by_kind and not reorder
+            r.inst(fn=root.path, argument_order="declaration order (single pass over generics.params)" if in_order else "regrouped (%s)" % ", ".join(by_kind + reorder), ok=in_order)
+            if not in_order:
+                r.fail(prop, "generic-arguments-regrouped %s" % name,
+                       "%s does not emit the argument list in one pass over `generics.params` (%s): for `struct S<const N: usize, T>` the list becomes `S<Dummy, N>` (E0747: type provided where a constant was expected)" % (name, ", ".join(by_kind + reorder)),
+                       root.file(), root.line())
+        r.inst(fn=root.path, examined=sorted(seen_p), source=sorted(set(walks)), treatment=treat, ok=ok)
+        if not ok:
+            r.fail(prop, "generic-emitter %s" % root.path,
+                   "%s does not treat the parameter list like its siblings (%s): the declared parameters, the referenced arguments and the visited generics would disagree" % (root.path, treat), root.file(), root.line())
+
+
 def generics_rule(syn, prop, rule="C07.R1", crate=None):
     r = Result(rule, "all emitters of the item's type parameters iterate the parameter list in source order; the list/visit emitters drop `concrete` parameters (contains_key filter) and the instantiating emitters replace them by the concrete type (get → None/Some arms); concrete maps of several #[ts] attributes are unioned")
     droppers = [("DerivedTS::name_with_generics", "macros/src/lib.rs"), ("DerivedTS::generate_generic_types", "macros/src/lib.rs"),
                 ("DerivedTS::generate_generics_fn", "macros/src/lib.rs"), ("utils::format_generics", "macros/src/utils.rs")]
     replacers = [("DerivedTS::generate_decl_fn", "macros/src/lib.rs"), ("generate_assoc_type", "macros/src/lib.rs"), ("DerivedTS::generate_export_test", "macros/src/lib.rs")]
-    for qual, f in droppers + replacers:
-        fn = syn.fn(qual, f)
-        if fn is None:
-            r.fail(prop, "anchor-missing " + qual, "emitter not found")
-            continue
-        src = [e for e in S.events(fn, "mcall") if (e["method"] == "type_params" and S.squash(e["recv"]) == "generics") or
-               (e["method"] == "iter" and S.squash(e["recv"]) == "generics.params")]
-        hashy = [e for e in S.events(fn, "mcall") if e["method"] == "collect" and e.get("turbofish") and re.search(r"Hash(Map|Set)", e["turbofish"])]
-        ck = [e for e in S.events(fn, "mcall") if e["method"] == "contains_key" and "concrete" in e["recv"]]
-        gt = [e for e in S.events(fn, "mcall") if e["method"] == "get" and "concrete" in e["recv"]]
-        is_drop = (qual, f) in droppers
-        ok = bool(src) and not hashy
-        if is_drop:
-            # contains_key must be negated inside a filter, or lead to `return None`
-            neg = False
-            for e in ck:
-                in_filter = any(c["k"] == "arg" and c["of"].endswith(".filter") for c in e["ctx"])
-                unary = any(u["op"] == "!" and "contains_key" in u["expr"] for u in S.events(fn, "unary"))
-                cond_ret = any(i for i in S.events(fn, "if") if "contains_key" in i["cond"])
-                if (in_filter and unary) or cond_ret:
-                    neg = True
-            ok = ok and neg
-            treat = "drops concrete params" if neg else "NO concrete filter"
-        else:
-            arms_ok = False
-            for m in S.events(fn, "match"):
-                if "concrete . get" in m["scrut"] or (S.squash(m["scrut"]).endswith(".concrete.get(ident)")):
-                    pats = [S.pat_class(a["pat"]) for a in m["arms"]]
-                    if "none" in pats and "some" in pats:
-                        some_arm = [a for a in m["arms"] if S.pat_class(a["pat"]) == "some"][0]
-                        bound = re.search(r"Some \((\w+)\)", some_arm["pat"])
-                        if bound and re.search(r"# ?%s\b" % bound.group(1), some_arm["body"]):
-                            arms_ok = True
-            ok = ok and bool(gt) and arms_ok
-            treat = "replaces concrete params" if arms_ok else "NO concrete replacement"
-        # an emitter that writes *all* kinds of parameters (lifetimes, types, consts) into one argument list must keep the
-        # declaration order: `struct S<const N: usize, T>` is legal, so a per-kind regrouping puts a type where a const belongs
-        if qual in ("generate_assoc_type", "generate_impl_block_header"):
-            kinds = [e for e in S.events(fn, "mcall") if e["method"] in ("lifetimes", "type_params", "const_params") and S.squash(e["recv"]) == "generics"]
-            one_pass = any(e["method"] == "iter" and S.squash(e["recv"]) == "generics.params" for e in src)
-            chained = any(e["method"] in ("chain", "partition", "sort_by_key", "sort_by", "sort") for e in S.events(fn, "mcall"))
-            in_order = one_pass and not chained and not (kinds and qual == "generate_assoc_type")
-            r.inst(fn=qual, argument_order="declaration order (single pass over generics.params)" if in_order else "regrouped", ok=in_order)
-            if not in_order:
-                r.fail(prop, "generic-arguments-regrouped %s" % qual,
-                       "%s does not emit the argument list in one pass over `generics.params`: for `struct S<const N: usize, T>` the list becomes `S<Dummy, N>` (E0747: type provided where a constant was expected)" % qual,
-                       fn["file"], fn["line"])
-        # the stand-in for a non-concrete type parameter is unconditional: a guarded `None` arm means some parameters are kept
-        if qual in ("generate_assoc_type", "DerivedTS::generate_export_test"):
-            for m in S.events(fn, "match"):
-                if "concrete" in S.squash(m["scrut"]) and ".get(" in S.squash(m["scrut"]):
-                    nones = [a for a in m["arms"] if S.pat_class(a["pat"]) == "none"]
-                    plain = len(nones) == 1 and not nones[0].get("guard") and re.search(r"#crate_rename::Dummy\}?\)?$", S.squash(nones[0]["body"]).rstrip(",")) is not None
-                    r.inst(fn=qual, none_arms=[(S.squash(a["pat"]), a.get("guard"), S.squash(a["body"])[:40]) for a in nones], every_free_parameter_erased=plain)
-                    if not plain:
-                        r.fail(prop, "generic-erasure-conditional %s" % qual,
-                               "%s does not replace every non-concrete type parameter by Dummy (None arms: %s): `WithoutGenerics` then keeps an argument, and the imports of the type's file depend on which instantiation is exported first" %
-                               (qual, [(S.squash(a["pat"]), a.get("guard")) for a in nones]), fn["file"], m["line"])
-        if not ok and crate is not None:
-            # the emitter may have been split up (a shared helper yields the free parameters, a loop replaced the adaptor
-            # chain): on the MIR, does it - through functions and closures of the crate - walk Generics::type_params() /
-            # generics.params and look each parameter up in the `concrete` map?
-            from vlib import mirlib as M2
-            cands = [b for b in crate.bodies if b.kind in ("Fn", "AssocFn") and (b.path == qual or b.path.endswith("::" + qual.split("::")[-1]) and qual.split("::")[-1] in b.path)]
-            if len(cands) == 1:
-                cg = crate.callgraph(("TS",))
-                seen_p, todo = set(), [cands[0].path]
-                while todo:
-                    pth = todo.pop()
-                    if pth in seen_p or len(seen_p) > 40:
-                        continue
-                    seen_p.add(pth)
-                    for q in cg.get(pth, ()):
-                        if q.startswith(("DerivedTS::", "utils::", "generate_", "free_", "types::")) or "{closure" in q or q.count("::") == 0:
-                            todo.append(q)
-                reach = [b for b in crate.bodies if b.path in seen_p]
-                walks = any(M2.fn_matches(t, r"Generics::type_params$") or (M2.fn_matches(t, r"Punctuated::<T, P>::iter$") and "GenericParam" in (t.get("arg_tys") or [""])[0]) for b in reach for _, t in b.calls())
-                looks = any(M2.fn_matches(t, r"HashMap::<K, V, S(, A)?>::(contains_key|get)$") and "Ident" in (t.get("arg_tys") or [""])[0] for b in reach for _, t in b.calls())
-                hashed = any(re.search(r"Hash(Map|Set)<[^>]*(TypeParam|GenericParam)", l["ty"]) for b in reach for l in b.locals)
-                partial = None
-                for bx in reach:
-                    cks = [blk for blk, t in bx.calls() if not bx.is_cleanup(blk) and M2.fn_matches(t, r"HashMap::<K, V, S(, A)?>::contains_key$") and "Ident" in (t.get("arg_tys") or [""])[0]]
-                    if not cks or bx.kind != "Closure":
-                        continue
-                    # a closure that decides about one parameter: every way out that keeps the parameter passes the test
-                    drops = {blk for blk in range(bx.n) if not bx.is_cleanup(blk) for st in bx.stmts(blk)
-                             if st["k"] == "assign" and st["dst"]["l"] == 0 and ((st["rv"]["k"] == "agg" and st["rv"].get("variant") == "None") or
-                                                                                 (st["rv"]["k"] == "use" and (M2.op_const(st["rv"]["op"]) or {}).get("int") == 0))}
-                    if not bx.all_paths_pass(0, set(cks) | drops, bx.returns()):
-                        partial = bx.path
-                if partial:
-                    treat = "the `concrete` test in %s does not cover every arm that keeps a parameter" % partial
-                elif walks and looks and not hashed:
-                    ok = True
-                    treat = "walks type_params() and consults `concrete` (confirmed on the MIR; written with helpers / loops)"
-        r.inst(fn=qual, source=[S.squash(e["recv"]) + "." + e["method"] for e in src], treatment=treat, ok=ok)
-        if not ok:
-            r.fail(prop, "generic-emitter %s" % qual,
-                   "%s does not treat the parameter list like its siblings (source %s, %s): the declared parameters, the referenced arguments and the visited generics would disagree"
-                   % (qual, [S.squash(e["recv"]) + "." + e["method"] for e in src] or "not found", treat), fn["file"], fn["line"])
+    _generic_emitters_mir(crate, prop, r, [q.split("::")[-1] for q, _ in droppers], [q.split("::")[-1] for q, _ in replacers])
     for x, f in (("StructAttr", "attr/struct.rs"), ("EnumAttr", "attr/enum.rs")):
         fn = syn.fn("<%s as Attr>::merge" % x, f)
-        st = [e for e in S.events(fn, "struct") if S.squash(e["path"]) == "Self"] if fn else []
-        val = None
-        for fld in (st[0]["fields"] if st else []):
-            if fld["name"] == "concrete":
-                val = S.squash(fld["value"])
-        ok = val is not None and "self.concrete" in val and "other.concrete" in val and re.search(r"\.(chain|extend)\(", val) and not re.match(r"^(if|match)\b", val)
-        r.inst(fn="%s::merge" % x, field="concrete", value=val, unioned=bool(ok))
-        if not ok:
+        verdict, val = "undecided", None
+        if crate is not None:
+            from rules import field_rules as F2
+            mb, summ = F2.merge_summary(crate, x)
+            if summ is not None and "concrete" in summ:
+                verdict, val = F2.merge_verdict(summ["concrete"], "union")
+        r.inst(fn="%s::merge" % x, field="concrete", value=val, unioned=verdict)
+        if verdict == "BAD":
             r.fail(prop, "concrete-not-unioned %s::merge" % x, "`concrete` of several #[ts(..)] attributes is not the union of both maps (%s): parameters named in a later attribute would stay generic" % val,
                    fn["file"] if fn else None, fn["line"] if fn else None)
         # the same union inside one list: `#[ts(concrete(A = i32), concrete(B = u8))]`
